@@ -3,7 +3,9 @@
 //! (a) production decoders (event + command) on `hostile::input`: the token list (items and
 //!     input spans, via the verif hook) must be identical for the single-buffer run, the
 //!     byte-at-a-time run, three generated partitions (incl. empty reads) and — for inputs up
-//!     to 48 bytes — EVERY single cut position.  The single-buffer run is then validated
+//!     to 48 bytes — EVERY single cut position; the generated partitions and every third single
+//!     cut also through one reader that fails with WouldBlock / Interrupted between the chunks
+//!     (the failed `Decoder::decode` call is repeated).  The single-buffer run is then validated
 //!     against the leftmost-longest rule using the production automaton's own per-prefix
 //!     acceptance trace (independent of the candidate/reschedule logic under test).
 //! (b) the tokeniser core instantiated (hook) over generated pattern sets built through the
@@ -73,6 +75,94 @@ trait Feeder {
     fn run_public(&self, _chunks: &[&[u8]]) -> Result<Option<Vec<String>>, Fail> {
         Ok(None)
     }
+    /// like `run_public`, but all chunks come from ONE reader that fails once or twice with
+    /// WouldBlock / Interrupted before it delivers each chunk after the first; the failed call
+    /// is repeated on the same decoder
+    fn run_public_failing_reads(&self, _chunks: &[&[u8]]) -> Result<Option<Vec<String>>, Fail> {
+        Ok(None)
+    }
+}
+
+/// Reader over `chunks`: each `fill_buf` returns what is left of the current chunk; when that is
+/// nothing it moves to the next chunk, after having failed `1 + index % 2` times (WouldBlock and
+/// Interrupted in turn) without consuming anything.  An empty chunk is a read that returns nothing.
+struct FailingReads<'a> {
+    chunks: &'a [&'a [u8]],
+    idx: usize,
+    off: usize,
+    failed: usize,
+    failures: usize,
+}
+
+impl FailingReads<'_> {
+    fn exhausted(&self) -> bool {
+        self.idx >= self.chunks.len() || (self.idx + 1 == self.chunks.len() && self.off == self.chunks[self.idx].len())
+    }
+}
+
+impl std::io::Read for FailingReads<'_> {
+    fn read(&mut self, out: &mut [u8]) -> std::io::Result<usize> {
+        use std::io::BufRead;
+        let data = self.fill_buf()?;
+        let n = data.len().min(out.len());
+        out[..n].copy_from_slice(&data[..n]);
+        self.consume(n);
+        Ok(n)
+    }
+}
+
+impl std::io::BufRead for FailingReads<'_> {
+    fn fill_buf(&mut self) -> std::io::Result<&[u8]> {
+        if self.idx >= self.chunks.len() {
+            return Ok(&[]);
+        }
+        if self.off == self.chunks[self.idx].len() && self.idx + 1 < self.chunks.len() {
+            if self.failed < 1 + self.idx % 2 {
+                self.failed += 1;
+                self.failures += 1;
+                let kind = if (self.idx + self.failed) % 2 == 0 { std::io::ErrorKind::WouldBlock } else { std::io::ErrorKind::Interrupted };
+                return Err(std::io::Error::new(kind, "scheduled read failure"));
+            }
+            self.failed = 0;
+            self.idx += 1;
+            self.off = 0;
+        }
+        Ok(&self.chunks[self.idx][self.off..])
+    }
+
+    fn consume(&mut self, amt: usize) {
+        if self.idx < self.chunks.len() {
+            self.off = (self.off + amt).min(self.chunks[self.idx].len());
+        }
+    }
+}
+
+fn drive_public_failing_reads<D: surf_n_term::decoder::Decoder>(mut dec: D, chunks: &[&[u8]], what: &str) -> Result<Option<Vec<String>>, Fail>
+where
+    D::Item: std::fmt::Debug,
+    D::Error: std::fmt::Debug,
+{
+    let mut out = Vec::new();
+    let mut rd = FailingReads { chunks, idx: 0, off: 0, failed: 0, failures: 0 };
+    let total: usize = chunks.iter().map(|c| c.len()).sum();
+    let mut seen = 0usize;
+    // every call yields an item (at most one per byte), or moves the reader, or is the last one
+    // (no further call once None has come back with everything delivered, as in `drive_public`:
+    // this run adds failed reads, not an empty read at the end)
+    for _ in 0..2 * total + 4 * chunks.len() + 64 {
+        let r = dec.decode(&mut rd);
+        let injected = rd.failures > seen;
+        seen = rd.failures;
+        match r {
+            Ok(Some(item)) => out.push(format!("{item:?}")),
+            Ok(None) if rd.exhausted() => break,
+            Ok(None) => {}
+            // the scheduled failure coming back: the caller simply tries again
+            Err(_) if injected => {}
+            Err(e) => return Err(Fail::new(format!("{what}/io-error"), format!("{e:?}"))),
+        }
+    }
+    Ok(Some(out))
 }
 
 fn drive_public<D: surf_n_term::decoder::Decoder>(mut dec: D, chunks: &[&[u8]], what: &str) -> Result<Option<Vec<String>>, Fail>
@@ -119,6 +209,9 @@ impl Feeder for EventFeeder {
     fn run_public(&self, chunks: &[&[u8]]) -> Result<Option<Vec<String>>, Fail> {
         drive_public(surf_n_term::decoder::TTYEventDecoder::new(), chunks, "event")
     }
+    fn run_public_failing_reads(&self, chunks: &[&[u8]]) -> Result<Option<Vec<String>>, Fail> {
+        drive_public_failing_reads(surf_n_term::decoder::TTYEventDecoder::new(), chunks, "event")
+    }
 }
 
 struct CommandFeeder;
@@ -142,6 +235,9 @@ impl Feeder for CommandFeeder {
     }
     fn run_public(&self, chunks: &[&[u8]]) -> Result<Option<Vec<String>>, Fail> {
         drive_public(surf_n_term::decoder::TTYCommandDecoder::new(), chunks, "command")
+    }
+    fn run_public_failing_reads(&self, chunks: &[&[u8]]) -> Result<Option<Vec<String>>, Fail> {
+        drive_public_failing_reads(surf_n_term::decoder::TTYCommandDecoder::new(), chunks, "command")
     }
 }
 
@@ -358,7 +454,7 @@ fn check_feeder(f: &dyn Feeder, input: &[u8], parts: &[Vec<u16>]) -> Result<(Sta
         }
     }
     let mut cut_inside_item = false;
-    let compare = |chunks: &[&[u8]], what: &str| -> Result<(), Fail> {
+    let compare = |chunks: &[&[u8]], what: &str, failing_reads: bool| -> Result<(), Fail> {
         if let Some(base_items) = &base_public {
             let items = f.run_public(chunks)?.unwrap_or_default();
             if items != *base_items {
@@ -368,6 +464,23 @@ fn check_feeder(f: &dyn Feeder, input: &[u8], parts: &[Vec<u16>]) -> Result<(Sta
                     format!("{name}/chunking-changes-result/public-api"),
                     format!(
                         "input \"{}\" split as {:?} ({what}) through Decoder::decode: item #{first} is {:?} (single buffer: {:?})",
+                        esc(input),
+                        lens,
+                        items.get(first),
+                        base_items.get(first)
+                    ),
+                ));
+            }
+        }
+        if let (Some(base_items), true) = (&base_public, failing_reads) {
+            let items = f.run_public_failing_reads(chunks)?.unwrap_or_default();
+            if items != *base_items {
+                let lens: Vec<usize> = chunks.iter().map(|c| c.len()).collect();
+                let first = items.iter().zip(base_items.iter()).position(|(a, b)| a != b).unwrap_or(items.len().min(base_items.len()));
+                return Err(Fail::new(
+                    format!("{name}/retried-read-error-changes-result/public-api"),
+                    format!(
+                        "input \"{}\" split as {:?} through Decoder::decode from one reader that fails with WouldBlock/Interrupted before each further chunk (the call is repeated): item #{first} is {:?} (single buffer: {:?})",
                         esc(input),
                         lens,
                         items.get(first),
@@ -399,7 +512,7 @@ fn check_feeder(f: &dyn Feeder, input: &[u8], parts: &[Vec<u16>]) -> Result<(Sta
     };
     // one byte at a time
     let bytes: Vec<&[u8]> = input.chunks(1).collect();
-    compare(&bytes, "byte at a time")?;
+    compare(&bytes, "byte at a time", false)?;
     // generated partitions
     let ends: BTreeSet<usize> = base.iter().map(|t| t.end).collect();
     for fracs in parts {
@@ -407,15 +520,15 @@ fn check_feeder(f: &dyn Feeder, input: &[u8], parts: &[Vec<u16>]) -> Result<(Sta
         if cuts.iter().any(|c| *c > 0 && *c < input.len() && !ends.contains(c)) {
             cut_inside_item = true;
         }
-        compare(&hostile::split(input, &cuts), "generated partition")?;
+        compare(&hostile::split(input, &cuts), "generated partition", true)?;
     }
     // every single cut position (exhaustive over two-read schedules)
     if input.len() <= 48 {
         for c in 0..=input.len() {
-            compare(&[&input[..c], &input[c..]], "single cut")?;
+            compare(&[&input[..c], &input[c..]], "single cut", c % 3 == 1)?;
             // with an empty read in between
             if c % 7 == 3 {
-                compare(&[&input[..c], &[], &input[c..]], "single cut + empty read")?;
+                compare(&[&input[..c], &[], &input[c..]], "single cut + empty read", false)?;
             }
         }
         if input.len() >= 2 {
@@ -690,7 +803,7 @@ impl Property for C03 {
     }
 
     fn rule(&self) -> String {
-        "(a) 60%: hostile::input byte strings (raw, hostile skeletons, mutated/well-formed printer output; <=48 raw bytes quick, <=400 thorough) through the production event AND command decoders: single buffer vs byte-at-a-time vs 3 generated partitions (0-5 cuts, empty reads allowed) vs every single cut position when the input has <=48 bytes; spans and items must be identical, then the single-buffer tokenisation is validated against leftmost-longest using the production DFA's per-prefix acceptance trace. (b) 40%: 1-6 patterns from regular-expression ASTs (depth<=3, no empty-language leaves) over {a,b,c,ESC} built through the public NFA API and run through the private tokeniser (hook, both tag paths) on inputs <=24 bytes assembled from random letters and random walks through the patterns, same partitions, validated against the derivative matcher. (c) ~3%: the read loop of the terminal object: 0-2047 printable pad bytes (so that the rest straddles the loop's 1024-byte read buffer) + a hostile::input string typed into a pseudo-terminal in 1-9 chunks, in lockstep with the reader or free running with 0-400 us pauses; the events returned by Terminal::poll must equal the events of a fresh TTYEventDecoder over the same bytes in one buffer, and stats().recv must equal the bytes typed (non-trivial there = more than one read and at least one event beyond the pad). non-trivial (a, b) = some token was taken from a non-terminal candidate (a longer match was attempted and failed, bytes rescheduled) and some cut falls strictly inside an item".into()
+        "(a) 60%: hostile::input byte strings (raw, hostile skeletons, mutated/well-formed printer output; <=48 raw bytes quick, <=400 thorough) through the production event AND command decoders: single buffer vs byte-at-a-time vs 3 generated partitions (0-5 cuts, empty reads allowed) vs every single cut position when the input has <=48 bytes; the 3 generated partitions and every third single cut are in addition delivered through Decoder::decode by ONE reader that fails once or twice (WouldBlock, Interrupted in turn) before each chunk after the first, the failed call being repeated on the same decoder (items must equal the single-buffer items: sig <decoder>/retried-read-error-changes-result/public-api); spans and items must be identical, then the single-buffer tokenisation is validated against leftmost-longest using the production DFA's per-prefix acceptance trace. (b) 40%: 1-6 patterns from regular-expression ASTs (depth<=3, no empty-language leaves) over {a,b,c,ESC} built through the public NFA API and run through the private tokeniser (hook, both tag paths) on inputs <=24 bytes assembled from random letters and random walks through the patterns, same partitions, validated against the derivative matcher. (c) ~3%: the read loop of the terminal object: 0-2047 printable pad bytes (so that the rest straddles the loop's 1024-byte read buffer) + a hostile::input string typed into a pseudo-terminal in 1-9 chunks, in lockstep with the reader or free running with 0-400 us pauses; the events returned by Terminal::poll must equal the events of a fresh TTYEventDecoder over the same bytes in one buffer, and stats().recv must equal the bytes typed (non-trivial there = more than one read and at least one event beyond the pad). non-trivial (a, b) = some token was taken from a non-terminal candidate (a longer match was attempted and failed, bytes rescheduled) and some cut falls strictly inside an item".into()
     }
 
     fn assumptions(&self) -> Vec<String> {
@@ -699,6 +812,7 @@ impl Property for C03 {
             "a sequence recognised by the automaton whose payload decoder rejects it may surface as one raw item covering exactly the longest match (production decoders only)".into(),
             "for (a) the set of recognised sequences is the production automaton itself (its language is C04/C15's subject)".into(),
             "at the end of input a viable, extendable prefix stays pending and produces no token".into(),
+            "a read that fails with ErrorKind::WouldBlock or ErrorKind::Interrupted is a read that delivered nothing (io::BufRead / io::Read contract: nothing was consumed, the operation may be retried): a caller that repeats the decode call on the same decoder and reader must get the items of the uncut stream; what the failed call itself returns is not checked".into(),
             "(c) Resize events (the library's reaction to a size report) and kitty image responses (consumed by an image handler) are left out of the comparison; a session whose typed bytes are not read within 8 s is inconclusive".into(),
         ]
     }
